@@ -312,6 +312,14 @@ def sc_c06(ctx, p):
             PRE = ['EX', 'EF', 'EG', 'EU', 'EW', 'AX', 'AF', 'AG', 'AU', 'AW']
             nm = tuple(map(ord, PRE[ctx.choose(len(PRE), 'prefix')])) + tuple(names.fresh(p['len']))
             ctx.assume(not_keyword(list(nm)))
+        elif p.get('near'):
+            # identifiers that are case variants of a reserved constant word (TRUE, tRuE, FALSE, ..): every character's case is a
+            # solver variable; the reserved spellings themselves are excluded
+            W = ['true', 'false'][ctx.choose(2, 'near')]
+            cs = []
+            for j, ch in enumerate(W):
+                c = z3.BitVec(f'near{j}', 32); ctx.assume(z3.Or(c == ord(ch), c == ord(ch.upper()))); cs.append(c)
+            ctx.assume(not_keyword(cs)); nm = tuple(cs)
         else: nm = tuple(names.fresh(p['len'], keyword_free=True))
         phi = shape(nm); root = ('names',)
     else:
